@@ -450,3 +450,27 @@ def element_cases(fnode, expr):
         split(e.elt, ('const', True))
         return unparse(g.iter), unparse(g.target), cases, bool(g.ifs)
     return None
+
+
+def alpha(node_or_text):
+    """Text of a statement / expression with its plain names replaced by placeholders in order of first appearance
+    (`result &= (v >= 0) & (v < n)` -> `_1 &= (_2 >= 0) & (_2 < _3)`): a key that survives the renaming of locals.
+    `self`, `cls` and module aliases of numpy stay."""
+    import copy
+    if isinstance(node_or_text, str):
+        node = ast.parse(node_or_text).body[0]
+    else:
+        node = copy.deepcopy(node_or_text)
+    keep = {'self', 'cls', 'np', 'numpy', 'True', 'False', 'None'}
+    names = {}
+    # source order, not ast.walk order
+    order = sorted((n for n in ast.walk(node) if isinstance(n, ast.Name)), key=lambda n: (getattr(n, 'lineno', 0), getattr(n, 'col_offset', 0)))
+    for n in order:
+        if n.id in keep:
+            continue
+        if n.id not in names:
+            names[n.id] = '_%d' % (len(names) + 1)
+    for n in order:
+        if n.id in names:
+            n.id = names[n.id]
+    return norm(node)
